@@ -145,6 +145,16 @@ def differential(ast, syntax, ns_spec, style=None, world_kw=None):
 SOURCE_ORDER = ['kw', 'vars', 'client', 'mapping', 'ctor_kw', 'ctor_map']
 
 
+class EmptyObj(Obj):
+    def __len__(self):
+        return 0
+
+
+class FalseObj(Obj):
+    def __bool__(self):
+        return False
+
+
 def run_impl_sources(source, syntax, sources, world_kw=None):
     """sources: dict with optional keys kw / vars / mapping / ctor_kw /
     ctor_map (name -> VALUE spec) and client (list of attr dicts; a list of
@@ -162,7 +172,13 @@ def run_impl_sources(source, syntax, sources, world_kw=None):
         t = make_template(source, syntax, ctor_map=b('ctor_map') or None,
                           ctor_kw=b('ctor_kw'), vars_=b('vars'))
         client = None
-        objs = [Obj({k: build(v, world, 'impl') for k, v in attrs.items()})
+        ocls = Obj
+        if sources.get('client_falsy'):
+            # a client whose truth value is false (an empty folder-like
+            # container) is still a client
+            ocls = {'len': EmptyObj, 'bool': FalseObj}[
+                sources['client_falsy']]
+        objs = [ocls({k: build(v, world, 'impl') for k, v in attrs.items()})
                 for attrs in sources.get('client') or []]
         if objs:
             client = tuple(objs) if sources.get('client_tuple', True) \
